@@ -280,6 +280,40 @@ def check_assignment(r, info, ff, opts, ref_table=None, tag=""):
     return viol, events, cells
 
 
+UNKNOWN_GROUPS = {"ZN": ["ZN"], "UNL": ["C1", "O1"], "NA": ["NA"]}
+
+
+def small_entries(ff):
+    """Hetero groups (ions, O2, caps) the force field has its own entry for:
+    residue names of <=3 characters with <=3 atoms, read from the harness's
+    reference table."""
+    t = ff_ref.builtin(ff.lower())
+    return {k: list(v) for k, v in t.items()
+            if len(k) <= 3 and len(v) <= 3 and k != "H2O"
+            and all(len(a) <= 4 for a in v)}
+
+
+def hetero_groups(ff, which):
+    """Isolated hetero groups far from the peptide and from each other."""
+    import numpy as np
+
+    groups = {}
+    if which in ("known", "both"):
+        groups.update(small_entries(ff))
+    if which in ("unknown", "both"):
+        groups.update({k: v for k, v in UNKNOWN_GROUPS.items()
+                       if k not in groups})
+    out = []
+    offs = [(0.0, 0.0, 0.0), (1.2, 0.0, 0.0), (-0.4, 1.1, 0.0)]
+    for k, (res, names) in enumerate(sorted(groups.items())):
+        base = np.array([30.0 + 12.0 * (k % 4), 30.0 + 12.0 * (k // 4), 30.0])
+        for j, nm in enumerate(names):
+            out.append(build.BAtom(
+                name=nm, res_name=res, chain="A", res_seq=300 + k, icode="",
+                xyz=base + np.array(offs[j]), record="HETATM", res_idx=-1))
+    return out
+
+
 def run_e2e(case):
     ff = case["ff"]
     optname = case["opt"]
@@ -292,6 +326,9 @@ def run_e2e(case):
     elif case["kind"] == "mixed":
         atoms, info = corpus.build_mixed(desc["name"],
                                          hydrogens=desc.get("hydrogens", False))
+    elif case["kind"] == "hetero":
+        atoms, info = corpus.build_host({"x": desc["x"], "pos": "mid"})
+        atoms += hetero_groups(ff, desc["groups"])
     else:
         atoms = build.build_strand(desc["seq"], naming=desc["naming"],
                                    hydrogens=desc.get("hydrogens", False))
@@ -428,6 +465,14 @@ def enumerate_cases(tier, seed):
             for optname in ("default", "noopt_nodebump", "assign_only_h"):
                 cases.append({"mode": "e2e", "kind": "mixed", "ff": ff,
                               "opt": optname, "desc": {"name": name}})
+    # hetero groups: ions / small groups the force field has entries for are
+    # written with them; unknown groups are omitted and reported
+    for ff in corpus.FFS:
+        for which in ("known", "unknown", "both"):
+            for optname in ("default", "whitespace"):
+                cases.append({"mode": "e2e", "kind": "hetero", "ff": ff,
+                              "opt": optname,
+                              "desc": {"x": "SER", "groups": which}})
     # neutral termini (PARSE only): NEUTRAL-N* / NEUTRAL-C* parameter sets
     for optname in ("neutraln", "neutralc", "neutral_both"):
         for x in corpus.INPUT_NAMES:
